@@ -353,6 +353,19 @@ func c13Judge(c *core.Ctx, k c13case, res *core.ShardResult) (vs []core.Violatio
 			res.Count("variables_shadowing_dotenv", 1)
 		}
 	}
+	if len(k.Vars) > 0 && len(k.Lits)%4 == 1 {
+		// text that is not a template spok can evaluate, next to a reference that is: either the whole
+		// spokfile is refused or the reference is substituted - it never reaches the shell as written
+		withTpl := text + fmt.Sprintf("\ntask tpl() {\n    printf '%%s' '{{json .Config}} {{.%s}}'\n}\n", k.Vars[0].Name)
+		_ = os.WriteFile(filepath.Join(sb.Proj, "spokfile"), []byte(withTpl), 0o644)
+		invT := run("--json", "tpl")
+		_ = os.WriteFile(filepath.Join(sb.Proj, "spokfile"), []byte(text), 0o644)
+		if invT.Exit == 0 && strings.Contains(invT.Stdout, "{{."+k.Vars[0].Name+"}}") {
+			bad("template-substitution", "a command that also holds text spok cannot evaluate as a template was run with its reference {{.%s}} unsubstituted: %s", k.Vars[0].Name, core.Trunc(invT.Stdout, 300))
+			return
+		}
+		res.Count("foreign_template_cases", 1)
+	}
 	if k.Clobber {
 		invC := run("--json", "clobber")
 		var jc []jsonResult
